@@ -90,7 +90,7 @@ class SimFS:
             if fk == kind and sub in key:
                 c = self.match_counts.get(i, 0) + 1
                 self.match_counts[i] = c
-                if c == nth:
+                if c == nth or nth == 0:        # nth == 0: persistent fault, fires on every match
                     self.fired.append((seq, kind, key, en))
                     if log:
                         self.events.append((seq, kind, key, en))
